@@ -1,14 +1,16 @@
-/* C12 tier B: the tok class produces the token list of the quoting grammar modulo its trimming, and agrees
- * with spiftool_split token for token modulo that trimming, for every input of length <= 3 (quick) / 4
- * (thorough) over {a, b, space, ':', ''', '"', '\'} and the delimiter sets NULL / ":" / " :" (chosen
- * nondeterministically inside each unit).  Memory-safety obligations of everything executed (tok.c, str.c,
- * dlinked_list.c, obj.c, strings.c) are part of each unit; input and delimiter strings end at the last byte
- * of their objects.
+/* C12 tier B: the tok class produces the token list of the quoting grammar modulo its trimming, for every
+ * input of length <= 3 (quick) / 4 (thorough) over {a, b, space, ':', ''', '"', '\'} and the delimiter
+ * sets NULL / ":" / " :" (chosen nondeterministically).  Agreement with spiftool_split token for token
+ * modulo that trimming follows from the split.grammar.* units: split equals the grammar's tokens and tok
+ * equals the trimmed grammar tokens on the same inputs.  Memory-safety obligations of everything executed
+ * (tok.c, str.c, dlinked_list.c, obj.c) are part of the unit; input and delimiter strings end at the last
+ * byte of their objects; no heap write beyond a requested block size (env_split.h canary).
  *
- * The REAL tok.c, str.c, dlinked_list.c, obj.c and strings.c are executed.  Re-bound dispatch macros
- * (object/list methods are called through spif_func_t pointers that cbmc cannot resolve; GUIDE
- * "function pointers"); each is bound to the method the class table holds for the objects that reach it in
- * this TU (tokens are str objects, the token list is a dlinked_list):
+ * The REAL tok.c, str.c, dlinked_list.c and obj.c are executed (rawsrc/ = the unannotated files of the
+ * tree under check; B units apply no loop contracts).  Re-bound dispatch macros (object/list methods are
+ * called through spif_func_t pointers that cbmc cannot resolve; GUIDE "function pointers"); each is bound
+ * to the method the class table holds for the objects that reach it in this TU (tokens are str objects,
+ * the token list is a dlinked_list):
  *     SPIF_LIST_NEW(type)       -> spif_dlinked_list_new()        (tok.c asks for dlinked_list)
  *     SPIF_LIST_DEL(o)          -> spif_dlinked_list_del(o)
  *     SPIF_LIST_APPEND(o, item) -> spif_dlinked_list_append(o, item)
@@ -18,142 +20,26 @@
  *     SPIF_OBJ_SHOW(o, b, i)    -> spif_str_show(o, "", b, i)
  *     SPIF_ALLOC(type)          -> exact-size typed allocation of sizeof(type) bytes (env_split.h VS_ALLOC_OBJ;
  *                                  plain MALLOC/REALLOC requests use the fat-block model of env_split.h)
- * The sources are included as "../src/x.c" (= $REPO/include/../src/x.c, the unannotated file of the tree
- * under check): B units apply no loop contracts, and this keeps them independent of other owners'
- * annotation tables for str.c / dlinked_list.c (which is also why the unit headers list only tok.c under src:).
- * "Modulo tok's trimming": a tok token is compared with the split / grammar token after removal of leading
- * and trailing whitespace (vr_trim); a str whose buffer is NULL (what spif_str_trim leaves for an empty
- * string) counts as the empty string.
- *
- * Input classes (disjoint assumptions, one unit each, so that a known defect of one class cannot hide a
- * regression in another):
- *   clean    none of the following
- *   mixed    a quote character of the other kind inside quotes                 (split defect)
- *   trailbs  explicit delimiter set and input ends in an unescaped backslash   (split + tok defect)
- *   empty    some grammar token is empty ('' or "")                            (spif_str_trim reads s[-1])
- *   blank    some grammar token is non-empty and all whitespace                (spif_str_trim keeps one blank)
- *   multi    two or more of mixed / trailbs / empty / blank
- * Bounds: 3 characters need ~4 CPU-minutes per unit, 4 characters ~10, 6 characters exceed 16 GB (str.c
- * re-allocates on every appended character and every moved block is one more candidate object for each
- * later access); the 7-character bound of the statement is reached for split and the word utilities only.
- * Quick tier: tok.clean and tok.defects (= every class but clean, in one unit); the five per-class units run
- * in the thorough tier.  Agreement with spiftool_split follows from the split.grammar.* units: split equals
- * the grammar's tokens and tok equals the trimmed grammar tokens on the same inputs. */
+ * "Modulo tok's trimming": a tok token is compared with the grammar token after removal of leading and
+ * trailing whitespace (vr_trim); a str whose buffer is NULL (what spif_str_trim leaves for an empty string)
+ * counts as the empty string.
+ * Bounds: 3 characters need ~4 CPU-minutes, 4 characters ~10, 6 characters exceed 16 GB (str.c re-allocates
+ * on every appended character and every moved block is one more candidate object for each later access); the
+ * 7-character bound of the statement is reached for split and the word utilities only.
+ * Native replay (`native: self`): inputs W_len, W_c0..W_c6, W_dk (delimiter set), W_gk, W_gk2. */
 
 /*@unit
-name: tok.clean
-define: V_CLASS=0, VERIF_MAXLEN_Q=3, VERIF_MAXLEN_T=4, VS_OBJS=1024
-src: tok.c
+name: tok.grammar
+define: VERIF_MAXLEN_Q=3, VERIF_MAXLEN_T=4, VS_OBJS=1024
+src: tok.c, str.c, dlinked_list.c, obj.c
 tier: B
-bound: input length <= 3 (quick tier) / <= 4 (thorough tier) over {a,b,space,:,',",\}; delimiter sets NULL, ":", " :"; inputs of class clean; loops unwound 5 / 6 (token loop 5)
+bound: input length <= 3 (quick tier) / <= 4 (thorough tier) over {a,b,space,:,',",\}; delimiter sets NULL, ":", " :"; loops unwound 5 / 6 (token loop 5)
 unwind: 5
 unwind_thorough: 6
 flags: --unwindset spif_tok_eval.5:5
 objbits: 10
 backend: cadical
-quick: yes
-timeout: 1500
-timeout_thorough: 6000
-mem: 16
-funcs: spif_tok_eval, spif_tok_new_from_ptr, spif_tok_set_sep, spif_str_new_from_ptr, spif_str_new_from_buff, spif_str_clear, spif_str_append_char, spif_str_trim, spif_dlinked_list_append, spif_dlinked_list_get
-*/
-/*@unit
-name: tok.defects
-define: V_CLASS=6, VERIF_MAXLEN_Q=3, VERIF_MAXLEN_T=4, VS_OBJS=1024
-src: tok.c
-tier: B
-bound: input length <= 3 (quick tier) / <= 4 (thorough tier) over {a,b,space,:,',",\}; delimiter sets NULL, ":", " :"; inputs of any class other than clean (the five classes below together); loops unwound 5 / 6 (token loop 5)
-unwind: 5
-unwind_thorough: 6
-flags: --unwindset spif_tok_eval.5:5
-objbits: 10
-backend: cadical
-quick: yes
-timeout: 1500
-timeout_thorough: 6000
-mem: 16
-funcs: spif_tok_eval, spif_tok_new_from_ptr, spif_tok_set_sep, spif_str_new_from_ptr, spif_str_new_from_buff, spif_str_clear, spif_str_append_char, spif_str_trim, spif_dlinked_list_append, spif_dlinked_list_get
-*/
-/*@unit
-name: tok.mixed
-define: V_CLASS=1, VERIF_MAXLEN_Q=3, VERIF_MAXLEN_T=4, VS_OBJS=1024
-src: tok.c
-tier: B
-bound: input length <= 3 (quick tier) / <= 4 (thorough tier) over {a,b,space,:,',",\}; delimiter sets NULL, ":", " :"; inputs of class mixed; loops unwound 5 / 6 (token loop 5)
-unwind: 5
-unwind_thorough: 6
-flags: --unwindset spif_tok_eval.5:5
-objbits: 10
-backend: cadical
-quick: no
-timeout: 1500
-timeout_thorough: 6000
-mem: 16
-funcs: spif_tok_eval, spif_tok_new_from_ptr, spif_tok_set_sep, spif_str_new_from_ptr, spif_str_new_from_buff, spif_str_clear, spif_str_append_char, spif_str_trim, spif_dlinked_list_append, spif_dlinked_list_get
-*/
-/*@unit
-name: tok.trailbs
-define: V_CLASS=2, VERIF_MAXLEN_Q=3, VERIF_MAXLEN_T=4, VS_OBJS=1024
-src: tok.c
-tier: B
-bound: input length <= 3 (quick tier) / <= 4 (thorough tier) over {a,b,space,:,',",\}; delimiter sets NULL, ":", " :"; inputs of class trailbs; loops unwound 5 / 6 (token loop 5)
-unwind: 5
-unwind_thorough: 6
-flags: --unwindset spif_tok_eval.5:5
-objbits: 10
-backend: cadical
-quick: no
-timeout: 1500
-timeout_thorough: 6000
-mem: 16
-funcs: spif_tok_eval, spif_tok_new_from_ptr, spif_tok_set_sep, spif_str_new_from_ptr, spif_str_new_from_buff, spif_str_clear, spif_str_append_char, spif_str_trim, spif_dlinked_list_append, spif_dlinked_list_get
-*/
-/*@unit
-name: tok.empty
-define: V_CLASS=3, VERIF_MAXLEN_Q=3, VERIF_MAXLEN_T=4, VS_OBJS=1024
-src: tok.c
-tier: B
-bound: input length <= 3 (quick tier) / <= 4 (thorough tier) over {a,b,space,:,',",\}; delimiter sets NULL, ":", " :"; inputs of class empty; loops unwound 5 / 6 (token loop 5)
-unwind: 5
-unwind_thorough: 6
-flags: --unwindset spif_tok_eval.5:5
-objbits: 10
-backend: cadical
-quick: no
-timeout: 1500
-timeout_thorough: 6000
-mem: 16
-funcs: spif_tok_eval, spif_tok_new_from_ptr, spif_tok_set_sep, spif_str_new_from_ptr, spif_str_new_from_buff, spif_str_clear, spif_str_append_char, spif_str_trim, spif_dlinked_list_append, spif_dlinked_list_get
-*/
-/*@unit
-name: tok.blank
-define: V_CLASS=4, VERIF_MAXLEN_Q=3, VERIF_MAXLEN_T=4, VS_OBJS=1024
-src: tok.c
-tier: B
-bound: input length <= 3 (quick tier) / <= 4 (thorough tier) over {a,b,space,:,',",\}; delimiter sets NULL, ":", " :"; inputs of class blank; loops unwound 5 / 6 (token loop 5)
-unwind: 5
-unwind_thorough: 6
-flags: --unwindset spif_tok_eval.5:5
-objbits: 10
-backend: cadical
-quick: no
-timeout: 1500
-timeout_thorough: 6000
-mem: 16
-funcs: spif_tok_eval, spif_tok_new_from_ptr, spif_tok_set_sep, spif_str_new_from_ptr, spif_str_new_from_buff, spif_str_clear, spif_str_append_char, spif_str_trim, spif_dlinked_list_append, spif_dlinked_list_get
-*/
-/*@unit
-name: tok.multi
-define: V_CLASS=5, VERIF_MAXLEN_Q=3, VERIF_MAXLEN_T=4, VS_OBJS=1024
-src: tok.c
-tier: B
-bound: input length <= 3 (quick tier) / <= 4 (thorough tier) over {a,b,space,:,',",\}; delimiter sets NULL, ":", " :"; inputs of class multi; loops unwound 5 / 6 (token loop 5)
-unwind: 5
-unwind_thorough: 6
-flags: --unwindset spif_tok_eval.5:5
-objbits: 10
-backend: cadical
-quick: no
+native: self
 timeout: 1500
 timeout_thorough: 6000
 mem: 16
@@ -186,90 +72,47 @@ funcs: spif_tok_eval, spif_tok_new_from_ptr, spif_tok_set_sep, spif_str_new_from
 #define SPIF_OBJ_COMP(a, b)        spif_str_comp((spif_str_t) (a), (spif_str_t) (b))
 #define SPIF_OBJ_SHOW(o, b, i)     spif_str_show((spif_str_t) (o), (spif_charptr_t) "", (b), (i))
 
-#include "../src/obj.c"
-#include "../src/str.c"
-#include "../src/dlinked_list.c"
-#include "../src/tok.c"
+#include "rawsrc/obj.c"
+#include "rawsrc/str.c"
+#include "rawsrc/dlinked_list.c"
+#include "rawsrc/tok.c"
 
 static char v_d1[2] = ":";
 static char v_d2[3] = " :";
 unsigned w_delim_kind;
 
-#if V_CLASS == 0
-# define CLS "[clean]"
-#elif V_CLASS == 1
-# define CLS "[mixed quotes]"
-#elif V_CLASS == 2
-# define CLS "[trailing backslash]"
-#elif V_CLASS == 3
-# define CLS "[empty token]"
-#elif V_CLASS == 4
-# define CLS "[blank token]"
-#elif V_CLASS == 5
-# define CLS "[several classes]"
-#else
-# define CLS "[any defect class]"
-#endif
-
 void harness(void)
 {
-    unsigned n, i, k, flags;
+    unsigned n, i, k;
     char *in = vr_input(&n);
     char *delim;
     vr_toks_t R;
     spif_tok_t t;
     spif_dlinked_list_t toks;
-    int f_empty = 0, f_blank = 0, f_trail;
     char want[VR_BUF];
 
-#ifdef V_DELIM_KIND
-    k = V_DELIM_KIND;                 /* constant delimiter set (one unit per set) */
-#else
-    k = nondet_uint();
+    k = (unsigned) VND(uint, dk);
     __CPROVER_assume(k < 3);
-#endif
     w_delim_kind = k;
     delim = (k == 0) ? (char *) NULL : ((k == 1) ? v_d1 : v_d2);
 
     vr_tokenize(delim, in, &R);
-    for (i = 0; i < R.cnt; i++) {
-        vr_trim(R.t[i], want);
-        if (R.len[i] == 0) f_empty = 1;
-        else if (want[0] == 0) f_blank = 1;
-    }
-    f_trail = (R.f_trailbs && delim != NULL);
-    flags = (R.f_mixed != 0) + (f_trail != 0) + (f_empty != 0) + (f_blank != 0);
-#if V_CLASS == 0
-    __CPROVER_assume(flags == 0);
-#elif V_CLASS == 1
-    __CPROVER_assume(flags == 1 && R.f_mixed);
-#elif V_CLASS == 2
-    __CPROVER_assume(flags == 1 && f_trail);
-#elif V_CLASS == 3
-    __CPROVER_assume(flags == 1 && f_empty);
-#elif V_CLASS == 4
-    __CPROVER_assume(flags == 1 && f_blank);
-#elif V_CLASS == 5
-    __CPROVER_assume(flags >= 2);
-#else
-    __CPROVER_assume(flags >= 1);
-#endif
 
     spif_str_strclass = &s_class;     /* class pointers as the library initialises them */
     t = spif_tok_new_from_ptr((spif_charptr_t) in);
     if (delim != NULL) {
         spif_tok_set_sep(t, spif_str_new_from_ptr((spif_charptr_t) delim));
     }
-    __CPROVER_assert(spif_tok_eval(t) == TRUE, "tok " CLS ": eval succeeds");
+    __CPROVER_assert(spif_tok_eval(t) == TRUE, "tok: eval succeeds");
     toks = (spif_dlinked_list_t) t->tokens;
 
-    __CPROVER_assert(!(vg_k <= n) || in[vg_k] == w_in[vg_k], "tok " CLS ": input string unchanged");
-    __CPROVER_assert((unsigned) spif_dlinked_list_count(toks) == R.cnt, "tok " CLS ": number of tokens equals the grammar's");
+    __CPROVER_assert(!(vg_k <= n) || in[vg_k] == w_in[vg_k], "tok: input string unchanged");
+    __CPROVER_assert((unsigned) spif_dlinked_list_count(toks) == R.cnt, "tok: number of tokens equals the grammar's");
     for (i = 0; i < R.cnt && i < (unsigned) spif_dlinked_list_count(toks); i++) {
         spif_str_t s = (spif_str_t) spif_dlinked_list_get(toks, (spif_listidx_t) i);
         const char *txt = (s->s != NULL) ? (const char *) s->s : "";
         vr_trim(R.t[i], want);
-        __CPROVER_assert(vr_streq(txt, want), "tok " CLS ": token text equals the trimmed grammar token");
+        __CPROVER_assert(vr_streq(txt, want), "tok: token text equals the trimmed grammar token");
         if (s->s != NULL) vs_check_block(s->s);
     }
     VERIF_CANARY();
